@@ -260,6 +260,20 @@ class Gen:
                 self.results.append({"goal": name, "verdict": "skipped", "trivial": False, "time_s": 0.0})
                 continue
             t0 = time.time()
+            # cheap search for a counterexample before any solver is asked: evaluate both sides at a few random points
+            # that satisfy the context.  A hit is only a candidate: it is replayed on the float code like a solver model.
+            # (A goal that HOLDS is never discharged this way -- that remains the solver's verdict.)
+            if pair is not None:
+                hit = self._numeric_counterexample(ctx, pair)
+                if hit is not None:
+                    f = {"label": label, "goal": name, "env": hit, "found_by": "numeric evaluation of the symbolic terms"}
+                    f.update(replay(self._hfn, self.params, hit, label, name, self.tier))
+                    if f.get("reproduced"):
+                        self.results.append({"goal": name, "verdict": "sat", "trivial": False, "time_s": round(time.time() - t0, 4),
+                                             "solver": "none (candidate from term evaluation, confirmed by replay)", "finding": f,
+                                             "hash": hashlib.sha1(name.encode()).hexdigest()[:12]})
+                        self.stop_labels.add(label)
+                        continue
             at = smt.Atomizer(ctx + [T.not_(gt)])
             if at.out[-1] is T.FALSE:
                 self.results.append({"goal": name, "verdict": "unsat", "trivial": True, "time_s": 0.0})
@@ -295,6 +309,32 @@ class Gen:
                 elif rec["finding"].get("within_tolerance"):
                     rec["verdict"] = "tolerance"
             self.results.append(rec)
+
+    def _numeric_counterexample(self, ctx, pair, tries=4):
+        qa, qb = pair
+        rng = getattr(self, "_nrng", None)
+        if rng is None:
+            rng = self._nrng = random.Random(12345)
+        for _ in range(tries):
+            env = {}
+            for name, (lo, hi, ls, hs, nz) in self.declared.items():
+                a = lo if lo is not None else (hi - 3.0 if hi is not None else -1.5)
+                b = hi if hi is not None else (lo + 3.0 if lo is not None else 1.5)
+                env[name] = round(a + (b - a) * (0.05 + 0.9 * rng.random()), 3)
+            try:
+                vals = T.evaluate(ctx + [qa.n, qa.d, qb.n, qb.d], env)
+            except (T.EvalError, ZeroDivisionError, OverflowError):
+                continue
+            if not all(vals[t.id] for t in ctx):
+                continue
+            try:
+                d = vals[qa.n.id] / vals[qa.d.id] - vals[qb.n.id] / vals[qb.d.id]
+                sc = max(1.0, abs(vals[qa.n.id] / vals[qa.d.id]), abs(vals[qb.n.id] / vals[qb.d.id]))
+            except ZeroDivisionError:
+                continue
+            if math.isfinite(d) and abs(d) > 1e-6 * sc:
+                return env
+        return None
 
     def _default_env(self, env):
         out = {}
@@ -555,6 +595,8 @@ def explore(hfn, params, modules, tier="quick", max_paths=2000, slow_s=60, valid
                     sb = vals[qb.n.id] / vals[qb.d.id]
                 except (T.EvalError, ZeroDivisionError):
                     continue
+                if not (math.isfinite(sa) and math.isfinite(sb)):
+                    continue        # numerator/denominator pairs overflowed the float range: not comparable here
                 ca = A[idx].real if part == "re" else A[idx].imag
                 cb = B[idx].real if part == "re" else B[idx].imag
                 ncomp += 2
